@@ -9,7 +9,7 @@
    bit that gonum's assembly Sum reads.  [sumR] is the sum of a list of reals, [count_le q xs]
    the number of elements of xs that are <= q.  Over [xr] a result [Ok (Some v)] is the real
    number v, [Ok None] is NaN and [GoPanic _] a panic. *)
-From Coq Require Import List ZArith Bool Reals Permutation Floats.
+From Coq Require Import List ZArith Bool Floats Reals Permutation.
 From NeatModel Require Import Res Stats Exper StatsSpec StatsQuantile StatsTotal ExperSpec ExperBest.
 Import ListNotations.
 Open Scope R_scope.
@@ -120,10 +120,10 @@ Print Assumptions C19_empty_series.
 
 (* the same on the binary64 instance, where NaN is the float NaN *)
 Theorem C19_empty_series_float : forall al,
-  F_min fnum [] = Ok nan /\ F_max fnum [] = Ok nan /\ F_sum fnum al [] = zero /\
-  F_mean fnum al [] = nan /\ F_mean_variance fnum al [] = (nan, nan) /\
-  F_variance fnum al [] = nan /\ F_stddev fnum al [] = nan /\
-  F_median fnum [] = Ok nan /\ F_q25 fnum [] = Ok nan /\ F_q75 fnum [] = Ok nan.
+  F_min fnum [] = Ok PrimFloat.nan /\ F_max fnum [] = Ok PrimFloat.nan /\ F_sum fnum al [] = PrimFloat.zero /\
+  F_mean fnum al [] = PrimFloat.nan /\ F_mean_variance fnum al [] = (PrimFloat.nan, PrimFloat.nan) /\
+  F_variance fnum al [] = PrimFloat.nan /\ F_stddev fnum al [] = PrimFloat.nan /\
+  F_median fnum [] = Ok PrimFloat.nan /\ F_q25 fnum [] = Ok PrimFloat.nan /\ F_q75 fnum [] = Ok PrimFloat.nan.
 Proof. intros al. repeat split. Qed.
 Print Assumptions C19_empty_series_float.
 
@@ -375,7 +375,7 @@ Example C19_example_statistics :
   let x := [3; 1; 4; 1; 5; 9; 2; 6]%float in
   (F_min fnum x, F_max fnum x, F_sum fnum true x, F_mean fnum false x,
    F_median fnum x, F_q25 fnum x, F_q75 fnum x, F_variance fnum true x)
-  = (Ok 1, Ok 9, 31, 3.875, Ok 3, Ok 1, Ok 5, 7.8392857142857144)%float.
+  = (Ok 1, Ok 9, 31, 3.875, Ok 3, Ok 1, Ok 5, 0x1.e36db6db6db6ep+2)%float.
 Proof. vm_compute. reflexivity. Qed.
 
 (* the code before 8399ba2: the median of an unsorted series panicked *)
